@@ -92,6 +92,7 @@ def tasks(tier, seed):
     for i, m in enumerate(MODELS):
         out.append({"fn": "model", "kwargs": {"i": i}, "label": f"model/{m[0]}"})
         out.append({"fn": "model_twice", "kwargs": {"i": i}, "label": f"model_twice/{m[0]}"})
+        out.append({"fn": "model", "kwargs": {"i": i, "step": 1 + i % 2}, "label": f"model/{m[0]}@later_step"})
     for mode in ("exposure", "exposure_deprecated", "observation_seq", "observation_dask_fn", "fitness", "apply_parameters", "calibration"):
         out.append({"fn": "plumb", "kwargs": {"mode": mode}, "label": f"plumb/{mode}"})
     return out
@@ -177,7 +178,8 @@ def ctx_nested(outer_draws, inner_draws):
 
 
 # -- H2 -----------------------------------------------------------------------------------------------
-def _detector(kind):
+def _detector(kind, step=0):
+    """Detector in the state a model finds it in at readout step `step` of a three-step exposure (step 0: single-readout default)."""
     from .c08_keys import _make_det
 
     if kind == "ccd8":
@@ -188,7 +190,12 @@ def _detector(kind):
     shape = (1, 1) if kind == "mkid" else (3, 3)
     d.geometry._row, d.geometry._col = shape
     d._initialize()
-    d.set_readout(times=[1.0], start_time=0.0)
+    if step == 0:
+        d.set_readout(times=[1.0], start_time=0.0)
+    else:
+        d.set_readout(times=[1.0, 2.0, 3.0], start_time=0.0)
+        d.pipeline_count = step
+        d.time = float(step + 1)
     d.readout_properties.time_step = 1.0
     d.photon.array = np.full(shape, 100.0)
     d.charge.add_charge_array(np.full(shape, 50.0))
@@ -215,10 +222,12 @@ def _kw(kw):
     return {k: (os.path.join(base, v[6:]) if isinstance(v, str) and v.startswith("@data/") else v) for k, v in kw.items()}
 
 
-def model(i):
+def model(i, step=0):
     import importlib
 
     label, modname, fname, kind, kw, seedarg = MODELS[i]
+    if step:
+        label = f"{label}@step{step}"
     kw = _kw(kw)
     f = getattr(importlib.import_module(modname), fname)
     fail = vx.boolean("late_failure") if seedarg else None
@@ -226,7 +235,7 @@ def model(i):
         with Patch() as p:
             rng = rngmodel.RngModel().install(p)
             _cheap_physics(p)
-            d = _detector(kind)
+            d = _detector(kind, step)
             kwargs = dict(kw)
             if seedarg and variant == "seeded":
                 kwargs[seedarg] = 1234
@@ -503,7 +512,7 @@ def replay(oid, kwargs, model, data):
             outs = []
             for prior in (1, 2):
                 np.random.seed(3000 + prior)
-                d = _detector(kind)
+                d = _detector(kind, kwargs.get("step", 0))
                 f(d, **{**kw, seedarg: 1234})
                 outs.append(_buckets(d))
             same = _same_buckets(outs[0], outs[1])
@@ -513,7 +522,7 @@ def replay(oid, kwargs, model, data):
             np.random.seed(1000 + prior)
             if prior == 2:
                 np.random.normal()  # leaves a cached Gaussian in the legacy generator
-            d = _detector(kind)
+            d = _detector(kind, kwargs.get("step", 0))
             before = np.random.get_state()
             kk = dict(kw)
             if seedarg:
